@@ -428,7 +428,7 @@ pub open spec fn same_timeouts(a: Seq<Timeout>, b: Seq<Timeout>) -> bool { a.len
                 && cursor_ok(*prev, __m1 as int, workflow.steps@, nid, 0usize)
                 && rule_prefix(*t, workflow.steps@, __m1 as int, NodeOutputKind::Normal, None, nid),
 //@@ end
-//@@ extract file=acts/src/scheduler/tree/build.rs item="fn dyn_build_act" name=dyn_build_act
+//@@ extract file=acts/src/scheduler/tree/build.rs item="fn dyn_build_act" name=dyn_build_act props=C20,C04,C12,C16
 //@@ spec
     ensures
         //# T1-tree-only-grows
